@@ -524,6 +524,7 @@ func run(c *core.Ctx) {
 	runComposite(c, st, table)
 	runSoft(c, st, table)
 	runScopes(c, st, table)
+	runInlineKeys(c, table)
 }
 
 var Engine = &core.Engine{
